@@ -152,6 +152,10 @@ def one_run(ctx, entry, text, script, default, rnd=None, lim=0):
 
     def interesting(_cand):
         i = len(asked)
+        if default == 'grow' and i >= len(script):
+            v = os.path.getsize(_cand) > os.path.getsize(path)      # accept exactly the candidates that lengthen the file
+            asked.append(bool(v))
+            return v
         v = script[i] if i < len(script) else (rnd.random() < 0.5 if default == 'rnd' else default)
         asked.append(bool(v))
         return v
@@ -226,6 +230,14 @@ def explore_pass(ctx, entry, text, cases, lim, rnd, max_paths):
             if ends and len(r.configs) - ends[0] > 2:
                 ctx.violation(f'peep-tail:{label}', f'{label}: {len(r.configs) - ends[0]} transform calls with the cursor past the end of {text!r}',
                               {'pass': name, 'arg': arg, 'text': text, 'script': r.asked, 'default': 'False'})
+        if kind == 'peep' and r.reason == 'exhausted' and r.steps and not r.steps[-1].accepted:
+            # the enumeration ends only when every (position, rule) of the CURRENT file has been visited
+            with open(os.path.join(ctx.tmp, 'c03', 'tc.c'), newline='') as f:
+                cur_len = len(f.read())
+            last = r.configs[-1]
+            if last is not None and (last[1] < cur_len - 1):
+                ctx.violation(f'peep-ends-early:{label}', f'{label} on {text!r} under verdicts {r.asked[:30]}: the pass reported finished at position {last[1]} of a {cur_len}-character file',
+                              {'pass': name, 'arg': arg, 'text': text, 'script': r.asked, 'default': 'False'})
         if kind == 'includes':
             cases.setdefault('incrun', {})[(c0[0], tuple(r.asked))] = (r.n, name, arg, text)
         if any(s.accepted for s in r.steps):
@@ -233,6 +245,9 @@ def explore_pass(ctx, entry, text, cases, lim, rnd, max_paths):
         ctx.count(f'{kind}:{"accepting" if any(r.asked) else "all-reject"}')
         return r
 
+    if kind == 'peep' and arg == 'b' and text.startswith(' class a ; class b'):
+        check_run([], 'grow')       # only this directed run on the long text
+        return
     while stack and seen < max_paths:
         script = stack.pop()
         r = check_run(script, False)
@@ -241,6 +256,8 @@ def explore_pass(ctx, entry, text, cases, lim, rnd, max_paths):
             return
         for i in range(len(r.asked) - 1, len(script) - 1, -1):
             stack.append(r.asked[:i] + [True])
+    if kind == 'peep' and arg == 'b' and 'class' in text:
+        check_run([], 'grow')
     if stack:
         ctx.count('verdict-tree-capped')
         for _ in range(randoms):
@@ -252,7 +269,7 @@ def explore_pass(ctx, entry, text, cases, lim, rnd, max_paths):
 
 def texts_for(ctx, rnd):
     small = ['', '\n', 'a', '()', '(a)\n', '{{}}', ',0,', 'a ? b : c;', ' 0x10,', ' 0xFFFFFFFFFFFF;', 'class a{};', ' a ', ',a,',
-             'while (1) { break; }', "transparent_crc(transparent_crc(a,b)", "extern 'C' extern 'C++'", '/*/**/*/', '//**/* x */',
+             'while (1) { break; }', ' class a ; class b ; class c ; class d ; k = x;\n', "transparent_crc(transparent_crc(a,b)", "extern 'C' extern 'C++'", '/*/**/*/', '//**/* x */',
              '#include <a.h>\n#include "b.h"\nint x;\n', '# 1 "a.c"\n\n#if 0\n', 'int a = (1 ? 2 : 3);\n', '(()())[]<>{}', ' 12UL, 0x1Fu; -07 ']
     n = 1 if ctx.quick() else 2
     alpha = TOKENS if not ctx.quick() else [t for t in TOKENS if t.strip()][:40]
@@ -435,7 +452,8 @@ def explore(ctx):
         import time
         t_ent = time.time()
         for text in tl:
-            if kind == 'peep' and len(text) > (30 if not ctx.quick() else 16 if arg != 'b' else 9):
+            long_ok = arg == 'b' and text.startswith(' class a ; class b')
+            if kind == 'peep' and len(text) > (30 if not ctx.quick() else 16 if arg != 'b' else 9) and not long_ok:
                 continue
             explore_pass(ctx, entry, text, cases, lim, rnd, mp)
         ctx.extra.setdefault('seconds_per_pass', {})[f'{name}::{arg}'] = round(time.time() - t_ent, 1)
